@@ -47,15 +47,63 @@ impl VT {
     }
 }
 
-fn build_typed<V: Copy + TryFrom<usize>>(cfg: Cfg, pats: &[Vec<u8>], with_values: bool) -> Result<(), DaachorseError> {
+/// How the collection is handed to the builder: the property is about the collection the iterator
+/// yields, whatever its size hint says.
+#[derive(Clone, Copy, Debug, PartialEq, Eq)]
+pub enum Shape {
+    /// a slice / Vec (exact size hint)
+    Exact,
+    /// a filtered iterator over a longer source: the upper bound of its size hint over-estimates
+    Filtered,
+    /// an iterator without any size information
+    Unsized,
+}
+impl Shape {
+    pub fn name(self) -> &'static str {
+        match self {
+            Shape::Exact => "exact",
+            Shape::Filtered => "filtered",
+            Shape::Unsized => "unsized",
+        }
+    }
+    pub fn parse(s: &str) -> Shape {
+        match s {
+            "filtered" => Shape::Filtered,
+            "unsized" => Shape::Unsized,
+            _ => Shape::Exact,
+        }
+    }
+}
+
+/// Wraps the items of a Vec into an iterator of the requested shape.
+fn shaped<'a, T: Clone + 'a>(items: Vec<T>, shape: Shape) -> Box<dyn Iterator<Item = T> + 'a> {
+    match shape {
+        Shape::Exact => Box::new(items.into_iter()),
+        Shape::Filtered => {
+            // 400 decoys in front and behind that the filter drops: size_hint() = (0, Some(n + 800))
+            let n = items.len();
+            let mut src: Vec<Option<T>> = vec![None; 400];
+            src.extend(items.into_iter().map(Some));
+            src.extend(std::iter::repeat_with(|| None).take(400));
+            let _ = n;
+            Box::new(src.into_iter().flatten())
+        }
+        Shape::Unsized => {
+            let mut it = items.into_iter();
+            Box::new(std::iter::from_fn(move || it.next()))
+        }
+    }
+}
+
+fn build_typed<V: Copy + TryFrom<usize>>(cfg: Cfg, pats: &[Vec<u8>], with_values: bool, shape: Shape) -> Result<(), DaachorseError> {
     util::in_lib(|| match cfg.variant {
         Variant::Byte => {
             if cfg.entry == Entry::Assoc {
                 if with_values {
                     let pv: Vec<(&Vec<u8>, V)> = pats.iter().map(|p| (p, V::try_from(0).ok().unwrap())).collect();
-                    daachorse::DoubleArrayAhoCorasick::<V>::with_values(pv).map(|_| ())
+                    daachorse::DoubleArrayAhoCorasick::<V>::with_values(shaped(pv, shape)).map(|_| ())
                 } else {
-                    daachorse::DoubleArrayAhoCorasick::<V>::new(pats).map(|_| ())
+                    daachorse::DoubleArrayAhoCorasick::<V>::new(shaped(pats.iter().collect(), shape)).map(|_| ())
                 }
             } else {
                 let mut b = BBld::new().match_kind(cfg.kind.mk());
@@ -64,9 +112,9 @@ fn build_typed<V: Copy + TryFrom<usize>>(cfg: Cfg, pats: &[Vec<u8>], with_values
                 }
                 if with_values {
                     let pv: Vec<(&Vec<u8>, V)> = pats.iter().map(|p| (p, V::try_from(0).ok().unwrap())).collect();
-                    b.build_with_values::<_, _, V>(pv).map(|_| ())
+                    b.build_with_values::<_, _, V>(shaped(pv, shape)).map(|_| ())
                 } else {
-                    b.build::<_, _, V>(pats).map(|_| ())
+                    b.build::<_, _, V>(shaped(pats.iter().collect::<Vec<_>>(), shape)).map(|_| ())
                 }
             }
         }
@@ -75,9 +123,9 @@ fn build_typed<V: Copy + TryFrom<usize>>(cfg: Cfg, pats: &[Vec<u8>], with_values
             if cfg.entry == Entry::Assoc {
                 if with_values {
                     let pv: Vec<(&str, V)> = sp.iter().map(|p| (*p, V::try_from(0).ok().unwrap())).collect();
-                    daachorse::CharwiseDoubleArrayAhoCorasick::<V>::with_values(pv).map(|_| ())
+                    daachorse::CharwiseDoubleArrayAhoCorasick::<V>::with_values(shaped(pv, shape)).map(|_| ())
                 } else {
-                    daachorse::CharwiseDoubleArrayAhoCorasick::<V>::new(&sp).map(|_| ())
+                    daachorse::CharwiseDoubleArrayAhoCorasick::<V>::new(shaped(sp, shape)).map(|_| ())
                 }
             } else {
                 let mut b = CBld::new().match_kind(cfg.kind.mk());
@@ -86,9 +134,9 @@ fn build_typed<V: Copy + TryFrom<usize>>(cfg: Cfg, pats: &[Vec<u8>], with_values
                 }
                 if with_values {
                     let pv: Vec<(&str, V)> = sp.iter().map(|p| (*p, V::try_from(0).ok().unwrap())).collect();
-                    b.build_with_values::<_, _, V>(pv).map(|_| ())
+                    b.build_with_values::<_, _, V>(shaped(pv, shape)).map(|_| ())
                 } else {
-                    b.build::<_, _, V>(&sp).map(|_| ())
+                    b.build::<_, _, V>(shaped(sp, shape)).map(|_| ())
                 }
             }
         }
@@ -96,16 +144,16 @@ fn build_typed<V: Copy + TryFrom<usize>>(cfg: Cfg, pats: &[Vec<u8>], with_values
 }
 
 /// Oracle + comparison for one collection. Returns a description of the deviation, if any.
-pub fn c10_judge(cfg: Cfg, vt: VT, with_values: bool, pats: &[Vec<u8>]) -> Result<(), String> {
+pub fn c10_judge(cfg: Cfg, vt: VT, with_values: bool, shape: Shape, pats: &[Vec<u8>]) -> Result<(), String> {
     let empty_set = pats.is_empty();
     let empty_pat = pats.iter().any(Vec::is_empty);
     let dup = (0..pats.len()).any(|i| pats[..i].contains(&pats[i]));
     let conv = !with_values && pats.len() > vt.max_index() + 1;
     let valid = !(empty_set || empty_pat || dup || conv);
     let r = catch_unwind(AssertUnwindSafe(|| match vt {
-        VT::U8 => build_typed::<u8>(cfg, pats, with_values),
-        VT::I8 => build_typed::<i8>(cfg, pats, with_values),
-        VT::U32 => build_typed::<u32>(cfg, pats, with_values),
+        VT::U8 => build_typed::<u8>(cfg, pats, with_values, shape),
+        VT::I8 => build_typed::<i8>(cfg, pats, with_values, shape),
+        VT::U32 => build_typed::<u32>(cfg, pats, with_values, shape),
     }));
     match r {
         Err(_) => Err(format!(
@@ -145,15 +193,16 @@ pub fn c10_judge(cfg: Cfg, vt: VT, with_values: bool, pats: &[Vec<u8>]) -> Resul
     }
 }
 
-fn c10_case(cfg: &Cfg, vt: VT, with_values: bool, pats: &[Vec<u8>]) -> Value {
+fn c10_case(cfg: &Cfg, vt: VT, with_values: bool, shape: Shape, pats: &[Vec<u8>]) -> Value {
     let mut c = e2::case_json(cfg, pats, None);
     let m = c.as_object_mut().unwrap();
     m.insert("value_type".into(), json!(vt.name()));
+    m.insert("iterator_shape".into(), json!(shape.name()));
     m.insert("with_values".into(), json!(with_values));
     c
 }
 
-fn c10_cfgs(thorough: bool) -> Vec<(Cfg, VT, bool)> {
+fn c10_cfgs(thorough: bool) -> Vec<(Cfg, VT, bool, Shape)> {
     let mut v = Vec::new();
     for variant in Variant::ALL {
         for kind in Kind::ALL {
@@ -161,15 +210,21 @@ fn c10_cfgs(thorough: bool) -> Vec<(Cfg, VT, bool)> {
                 if !thorough && vt != VT::U32 && kind == Kind::LL {
                     continue;
                 }
-                v.push((Cfg::new(variant, kind, None, Entry::Builder), vt, wv));
+                v.push((Cfg::new(variant, kind, None, Entry::Builder), vt, wv, Shape::Exact));
                 if vt == VT::U32 && !wv {
-                    v.push((Cfg::new(variant, kind, Some(1), Entry::Builder), vt, wv));
+                    v.push((Cfg::new(variant, kind, Some(1), Entry::Builder), vt, wv, Shape::Exact));
+                }
+                if !wv && vt != VT::U32 && (thorough || kind == Kind::Std) {
+                    // narrow value types fed from iterators whose size hint is loose or absent
+                    v.push((Cfg::new(variant, kind, None, Entry::Builder), vt, wv, Shape::Filtered));
+                    v.push((Cfg::new(variant, kind, None, Entry::Builder), vt, wv, Shape::Unsized));
                 }
             }
         }
-        v.push((Cfg::new(variant, Kind::Std, None, Entry::Assoc), VT::U32, false));
-        v.push((Cfg::new(variant, Kind::Std, None, Entry::Assoc), VT::U32, true));
-        v.push((Cfg::new(variant, Kind::Std, None, Entry::Assoc), VT::U8, false));
+        v.push((Cfg::new(variant, Kind::Std, None, Entry::Assoc), VT::U32, false, Shape::Exact));
+        v.push((Cfg::new(variant, Kind::Std, None, Entry::Assoc), VT::U32, true, Shape::Filtered));
+        v.push((Cfg::new(variant, Kind::Std, None, Entry::Assoc), VT::U8, false, Shape::Filtered));
+        v.push((Cfg::new(variant, Kind::Std, None, Entry::Assoc), VT::I8, false, Shape::Unsized));
     }
     v
 }
@@ -177,21 +232,22 @@ fn c10_cfgs(thorough: bool) -> Vec<(Cfg, VT, bool)> {
 pub fn c10(tier: &str, acc: &mut Acc, bounds: &mut Vec<String>) {
     let prop = "C10";
     let thorough = tier_is_thorough(tier);
-    let kmax = if thorough { 5 } else { 4 };
-    // strings: empty + U(2,2) (+ two length-3 strings in the thorough tier)
-    let mut strs: Vec<Vec<u8>> = vec![vec![]];
-    strs.extend(enumr::universe(2, 2));
-    if thorough {
-        strs.push(vec![0, 1, 0]);
-        strs.push(vec![0, 0, 1]);
-    }
-    let ns = strs.len();
     let cfgs = c10_cfgs(thorough);
     let embs = [
         enumr::Emb::bytes("ascii", b"ab"),
         enumr::Emb::bytes("edge", &[0x00, 0xff]),
         enumr::Emb::chars("mixed", &[0x61, 0x4e16]),
     ];
+    // two sweeps: short strings / longer sequences, and strings up to length 3 (nested prefix chains)
+    let mut sweeps: Vec<(Vec<Vec<u8>>, usize)> = Vec::new();
+    let mut s2: Vec<Vec<u8>> = vec![vec![]];
+    s2.extend(enumr::universe(2, 2));
+    sweeps.push((s2, if thorough { 5 } else { 4 }));
+    let mut s3: Vec<Vec<u8>> = vec![vec![]];
+    s3.extend(enumr::universe(2, 3));
+    sweeps.push((s3, if thorough { 4 } else { 3 }));
+    for (strs, kmax) in sweeps {
+    let ns = strs.len();
     // tasks: first two elements of the sequence (or shorter sequences)
     let mut tasks: Vec<Vec<usize>> = vec![vec![]];
     for i in 0..ns {
@@ -209,24 +265,24 @@ pub fn c10(tier: &str, acc: &mut Acc, bounds: &mut Vec<String>) {
             }
             for emb in &embs {
                 let pats: Vec<Vec<u8>> = seq.iter().map(|&i| emb.mapped(&strs[i])).collect();
-                for (cfg, vt, wv) in &cfgs {
+                for (cfg, vt, wv, shape) in &cfgs {
                     if cfg.variant == Variant::Char && !emb.utf8 {
                         continue;
                     }
-                    set_case(prop, "collections", c10_case(cfg, *vt, *wv, &pats));
+                    set_case(prop, "collections", c10_case(cfg, *vt, *wv, *shape, &pats));
                     acc.evals += 1;
                     let invalid = pats.is_empty() || pats.iter().any(Vec::is_empty) || (0..pats.len()).any(|i| pats[..i].contains(&pats[i]));
                     if invalid {
                         acc.nontrivial += 1;
                     }
-                    match c10_judge(*cfg, *vt, *wv, &pats) {
+                    match c10_judge(*cfg, *vt, *wv, *shape, &pats) {
                         Ok(()) => {
                             acc.traces += 1;
                             if invalid && pats.len() >= 3 {
-                                acc.nt_sample(|| e2::with(c10_case(cfg, *vt, *wv, &pats), "result", json!("rejected with a matching error kind")));
+                                acc.nt_sample(|| e2::with(c10_case(cfg, *vt, *wv, *shape, &pats), "result", json!("rejected with a matching error kind")));
                             }
                         }
-                        Err(w) => acc.violate(prop, "collections", format!("{w}: patterns {} [{} {} {} {} values={}]", e2::show_pats(&pats), cfg.variant.name(), cfg.kind.name(), cfg.entry.name(), vt.name(), wv), c10_case(cfg, *vt, *wv, &pats)),
+                        Err(w) => acc.violate(prop, "collections", format!("{w}: patterns {} [{} {} {} {} values={} iterator={}]", e2::show_pats(&pats), cfg.variant.name(), cfg.kind.name(), cfg.entry.name(), vt.name(), wv, shape.name()), c10_case(cfg, *vt, *wv, *shape, &pats)),
                     }
                 }
             }
@@ -241,6 +297,7 @@ pub fn c10(tier: &str, acc: &mut Acc, bounds: &mut Vec<String>) {
     });
     acc.merge(a);
     bounds.push(format!("all sequences of <= {kmax} strings from {{empty}} + {} strings x 3 embeddings x {} configurations", ns - 1, cfgs.len()));
+    }
     // defect insertion into a 6-pattern base collection, every position
     let base: Vec<Vec<u8>> = ["ab", "abc", "b", "bcd", "a", "cab"].iter().map(|s| s.as_bytes().to_vec()).collect();
     let mut a2 = Acc::new();
@@ -249,13 +306,13 @@ pub fn c10(tier: &str, acc: &mut Acc, bounds: &mut Vec<String>) {
             let mut pats = base.clone();
             let ins = if defect == base.len() { vec![] } else { base[defect].clone() };
             pats.insert(pos, ins);
-            for (cfg, vt, wv) in &cfgs {
-                set_case(prop, "collections", c10_case(cfg, *vt, *wv, &pats));
+            for (cfg, vt, wv, shape) in &cfgs {
+                set_case(prop, "collections", c10_case(cfg, *vt, *wv, *shape, &pats));
                 a2.evals += 1;
                 a2.nontrivial += 1;
-                match c10_judge(*cfg, *vt, *wv, &pats) {
+                match c10_judge(*cfg, *vt, *wv, *shape, &pats) {
                     Ok(()) => a2.traces += 1,
-                    Err(w) => a2.violate(prop, "collections", format!("{w}: patterns {}", e2::show_pats(&pats)), c10_case(cfg, *vt, *wv, &pats)),
+                    Err(w) => a2.violate(prop, "collections", format!("{w}: patterns {}", e2::show_pats(&pats)), c10_case(cfg, *vt, *wv, *shape, &pats)),
                 }
             }
         }
@@ -271,14 +328,14 @@ pub fn c10(tier: &str, acc: &mut Acc, bounds: &mut Vec<String>) {
                     .map(|i| char::from_u32(0x100 + i as u32).unwrap().to_string().into_bytes())
                     .collect();
                 for kind in Kind::ALL {
-                    for wv in [false, true] {
+                    for (wv, shape) in [(false, Shape::Exact), (true, Shape::Exact), (false, Shape::Filtered), (false, Shape::Unsized)] {
                         let cfg = Cfg::new(variant, kind, None, Entry::Builder);
-                        set_case(prop, "collections", c10_case(&cfg, vt, wv, &pats));
+                        set_case(prop, "collections", c10_case(&cfg, vt, wv, shape, &pats));
                         a3.evals += 1;
                         a3.nontrivial += 1;
-                        match c10_judge(cfg, vt, wv, &pats) {
+                        match c10_judge(cfg, vt, wv, shape, &pats) {
                             Ok(()) => a3.traces += 1,
-                            Err(w) => a3.violate(prop, "collections", format!("{w}: {n} one-character patterns, value type {}", vt.name()), c10_case(&cfg, vt, wv, &pats)),
+                            Err(w) => a3.violate(prop, "collections", format!("{w}: {n} one-character patterns, value type {}, iterator shape {}", vt.name(), shape.name()), c10_case(&cfg, vt, wv, shape, &pats)),
                         }
                     }
                 }
@@ -302,7 +359,8 @@ pub fn replay_collections(case: &Value) -> bool {
     let pats: Vec<Vec<u8>> = case["patterns"].as_array().unwrap().iter().map(|p| util::unhex(p.as_str().unwrap())).collect();
     let vt = VT::parse(case["value_type"].as_str().unwrap_or("u32"));
     let wv = case["with_values"].as_bool().unwrap_or(false);
-    match c10_judge(cfg, vt, wv, &pats) {
+    let shape = Shape::parse(case["iterator_shape"].as_str().unwrap_or("exact"));
+    match c10_judge(cfg, vt, wv, shape, &pats) {
         Ok(()) => {
             println!("replay: construction behaves as specified");
             false
